@@ -484,8 +484,37 @@ def check_zone_object_decides(ctx):
                               f'selected and {outs["pytz"][:300]!r} while pytz is selected')
 
 
+def check_windows_independent(ctx):
+    """converting a generated component back to a zone object gives the zone of THAT component: a second window of the same
+    zone id, converted with the same provider object, reads as the source zone inside the second window (instants far from any
+    transition, so the recorded onset-shift finding is not in play)"""
+    import icalendar
+    from icalendar import Timezone
+    from icalendar.timezone import tzp
+    for prov in ('zoneinfo', 'pytz'):
+        getattr(icalendar, 'use_' + prov)()
+        try:
+            for zid, (s_off, w_off) in (('Europe/Berlin', (7200, 3600)), ('America/New_York', (-14400, -18000))):
+                for k, (y0, y1) in enumerate(((2000, 2004), (2010, 2014), (1980, 1983))):
+                    ctx.evaluated(('windows', prov, zid, y0))
+                    g = Timezone.from_tzid(zid, tzp, dt.date(y0, 1, 1), dt.date(y1, 1, 1))
+                    z = g.to_tz(tzp, lookup_tzid=False)
+                    for y in range(y0, y1):
+                        for mo, want in ((7, s_off), (1, w_off)):
+                            t = dt.datetime(y, mo, 15, 12, tzinfo=UTC)
+                            got = int(t.astimezone(z).utcoffset().total_seconds())
+                            if got != want:
+                                ctx.violation('window-reads-as-another', {'zone': zid, 'provider': prov, 'window': [y0, y1], 'nth': k + 1},
+                                              f'the component generated for {y0}..{y1} (window {k + 1} converted with the same provider object) '
+                                              f'gives offset {got} at {t:%Y-%m-%d}, the source zone {want}', None)
+                                break
+        finally:
+            icalendar.use_zoneinfo()
+
+
 def oracle(ctx):
     check_zone_object_decides(ctx)
+    check_windows_independent(ctx)
     rs = run_jobs(ctx)
     lines = ['\t'.join([r['chain'][0]] + r['chain'][1]) for r in rs if r['chain']]
     try:
